@@ -35,12 +35,14 @@ Rules == {"R1", "R2", "R3", "R4", "R5", "R6", "R7", "R8", "R9", "R10", "R11", "R
           \* the annotation on a field of the wrong type, written with the value that is the default of the
           \* right type (PRESERVE, RFC3339, BASE64): still the annotation, still the wrong type
           "R6d", "R9d", "R10d",
+          \* nullable on a primitive member of an ordinary oneof (it tracks presence, but is not "proto3 optional")
+          "R4o",
           \* the unbound-field rule by verb and by whether the configuration names a path at all
           \* (v = verb only: the RPC stays on its default route), d = DELETE
           "R24v", "R24d", "R24dv"}
 MethodRules == {"R21", "R22", "R23", "R24", "R24v", "R24d", "R24dv"}
 BaseRule(r) == CASE r \in {"R15o", "R15x"} -> "R15" [] r \in {"R17o", "R17x"} -> "R17" [] r \in {"R19o", "R19x"} -> "R19"
-                 [] r = "R6d" -> "R6" [] r = "R9d" -> "R9" [] r = "R10d" -> "R10"
+                 [] r = "R6d" -> "R6" [] r = "R9d" -> "R9" [] r = "R10d" -> "R10" [] r = "R4o" -> "R4"
                  [] r \in {"R24v", "R24d", "R24dv"} -> "R24" [] OTHER -> r
 MessageRules == Rules \ MethodRules
 
@@ -57,6 +59,8 @@ Bad(P, full, r) ==
        [] r = "R6"  -> Msg("Bad", full, <<Ann(F("a", "a", 1, "string", "one"), "empty", "NULL")>>)
        [] r = "R7"  -> Msg("Bad", full, <<Ann(FRef("a", "a", 1, "message", "rep", c), "empty", "OMIT")>>)
        [] r = "R8"  -> Msg("Bad", full, <<Ann(FMap("a", "a", 1, "string", "message", c), "empty", "NULL")>>)
+       [] r = "R4o" -> MsgO("Bad", full, <<InOneof(Ann(F("a", "a", 1, "string", "one"), "nullable", TRUE), "o"), InOneof(F("b", "b", 2, "int32", "one"), "o")>>,
+                             <<Oneof("o", FALSE, "", FALSE)>>)
        [] r = "R6d" -> Msg("Bad", full, <<Ann(F("a", "a", 1, "string", "one"), "empty", "PRESERVE")>>)
        [] r = "R9d" -> Msg("Bad", full, <<Ann(F("a", "a", 1, "string", "one"), "ts", "RFC3339")>>)
        [] r = "R10d" -> Msg("Bad", full, <<Ann(F("a", "a", 1, "string", "one"), "bytes", "BASE64")>>)
@@ -281,7 +285,11 @@ Shapes == {"self_rec", "mutual_rec", "rec_via_map", "rec_via_oneof", "rec_via_re
            "rec_flat_oneof", "rec_disc_oneof", "rec_under_flatten", "rec_unwrap", "rec_flatten_self",
            \* acyclic graphs with many PATHS to one message (a traversal that forgets what it has finished
            \* visits a message once per path: 2^26, 3^16, 11! visits)
-           "diamond_layers", "map_chain", "clique"}
+           "diamond_layers", "map_chain", "clique",
+           \* path templates with braces in unusual places (a stray closing brace in a literal segment, a
+           \* router-style constrained variable, an unclosed variable, an empty variable): the answer may be
+           \* files or an error message, never a crash
+           "path_braces"}
 RECURSIVE DeepMsgs(_, _, _)
 DeepMsgs(P, i, n) ==
   IF i > n THEN <<>>
@@ -360,6 +368,16 @@ C16Case(P, sh, depth) ==
        [] sh = "optional" -> std(<<w(<<F("a", "a", 1, "string", "opt"), F("b", "b", 2, "int64", "opt"), FRef("c", "c", 3, "message", "opt", FN(P, "W")),
                                         FRef("e", "e", 4, "enum", "opt", FN(P, "E")), F("f", "f", 5, "bytes", "opt")>>)>>)
        [] sh = "deep" -> std(<<w(<<FRef("d", "d", 1, "message", "one", FN(P, "D1"))>>)>> \o DeepMsgs(P, 1, depth))
+       [] sh = "path_braces" ->
+            LET q == Msg("Q", FN(P, "Q"), <<F("post_id", "postId", 1, "string", "one"), F("part_id", "partId", 2, "string", "one"), F("sku", "sku", 3, "string", "one")>>)
+                m(n, segs) == Method(n, FN(P, "Q"), FN(P, "W"), TRUE, Parts(TRUE, segs, FALSE), "POST")
+            IN Schema(<<File(P \o "/svc.proto", Pkg(P), GoPkg(P), TRUE, <<>>,
+                             <<Svc(P, <<m("A", <<Lit("users"), Lit("user_id}"), Lit("posts"), Var("post_id")>>),
+                                        m("B", <<Lit("items"), Lit("{sku:[A-Z]{2}}"), Lit("parts"), Var("part_id")>>),
+                                        m("C", <<Lit("open"), Lit("{post_id")>>),
+                                        m("D", <<Lit("empty"), Lit("{}"), Var("part_id")>>),
+                                        m("E", <<Lit("}{"), Var("sku"), Lit("}}")>>)>>)>>,
+                             <<w(<<F("k", "k", 1, "string", "one")>>), q>>, <<EnumE>>)>>)
        [] sh = "diamond_layers" -> std(<<w(<<FRef("d", "d", 1, "message", "one", FN(P, "L1"))>>)>> \o LayerMsgs(P, 26, "diamond"))
        [] sh = "map_chain" -> std(<<w(<<FRef("d", "d", 1, "message", "one", FN(P, "L1"))>>)>> \o LayerMsgs(P, 16, "map"))
        [] sh = "clique" -> std(<<w(<<FRef("d", "d", 1, "message", "one", FN(P, "K1"))>>)>> \o CliqueMsgs(P, 11))
@@ -460,7 +478,8 @@ C13MethodCase(P, t) ==
 \* identifier shapes and service layouts
 C13Shapes == {"names", "keywords", "two_services_same_method", "two_services_headers", "no_services", "cross_file",
               "nested_annotated", "oneof_members", "acronym_method", "two_service_files", "cross_package_types",
-              "disc_oneof_scalars", "disc_oneof_mixed", "disc_oneof_flat", "disc_oneof_one_variant", "unwrap_container_siblings"}
+              "disc_oneof_scalars", "disc_oneof_mixed", "disc_oneof_flat", "disc_oneof_one_variant", "unwrap_container_siblings",
+              "headers_same_identifier"}
 C13ShapeCase(P, sh) ==
   LET do(in, out) == Method("Do", in, out, TRUE, Parts(TRUE, <<Lit("do")>>, FALSE), "POST")
       one(msgs, ms) == Schema(<<File(P \o "/svc.proto", Pkg(P), GoPkg(P), TRUE, <<>>, <<Svc(P, ms)>>, <<Out(P), Child(P), Child2(P)>> \o msgs, <<EnumE, EnumPlain>>)>>)
@@ -520,6 +539,14 @@ C13ShapeCase(P, sh) ==
                                                               F("s", "s", 2, "string", "one")>>)>>)>>, <<do(FN(P, "W"), FN(P, "W"))>>)
        \* discriminated oneofs by what their variants are: scalars only, scalars and messages, messages
        \* only (flattened), a single variant
+       \* different header names that give the same Go / TS identifier (the X- prefix and the dashes are dropped)
+       [] sh = "headers_same_identifier" ->
+            Schema(<<File(P \o "/svc.proto", Pkg(P), GoPkg(P), TRUE, <<>>,
+                          <<WithHeaders(Svc(P, <<MethodHeaders(do(FN(P, "In"), FN(P, "Out")),
+                                                               <<Header("Trace-Id", "string", "", FALSE), Header("X-APIKey", "string", "", FALSE)>>)>>),
+                                        <<Header("X-Request-ID", "string", "uuid", TRUE), Header("Request-ID", "string", "", FALSE),
+                                          Header("X-Trace-Id", "string", "", FALSE), Header("X-API-Key", "string", "", TRUE)>>)>>,
+                          <<In(P), Out(P)>>, <<>>)>>)
        \* a message with a map-value unwrap field next to fields of every kind and cardinality
        [] sh = "unwrap_container_siblings" ->
             one(<<Msg("L", FN(P, "L"), <<Ann(FRef("items", "items", 1, "message", "rep", FN(P, "Child")), "unwrap", TRUE)>>),
@@ -643,12 +670,12 @@ C20Case(P, k, c, ex, nest) ==
             one(<<MsgO("R", FN(P, "R"), ofields \o <<F("label", "label", 2, "string", "one")>>, <<Oneof("o", FALSE, "", FALSE)>>)>>, FN(P, "R"))
        [] nest = "flat"     -> one(<<Msg("R", FN(P, "R"), <<f, F("label", "label", 2, "string", "one")>>)>>, FN(P, "R"))
        \* a oneof whose message member has itself a oneof with a message member (and a map of such messages)
-       [] nest = "oneof_in_oneof" ->
-            one(<<MsgO("Mid", FN(P, "Mid"), <<InOneof(FRef("leaf", "leaf", 1, "message", "one", FN(P, "Inner")), "pick"), InOneof(F("txt", "txt", 2, "string", "one"), "pick")>>,
-                       <<Oneof("pick", FALSE, "", FALSE)>>),
+       [] nest = "oneof_in_oneof" ->   \* (both oneofs and both members are named alike: generated temporaries must still differ)
+            one(<<MsgO("Mid", FN(P, "Mid"), <<InOneof(FRef("message", "message", 1, "message", "one", FN(P, "Inner")), "body"), InOneof(F("txt", "txt", 2, "string", "one"), "body")>>,
+                       <<Oneof("body", FALSE, "", FALSE)>>),
                   Msg("Inner", FN(P, "Inner"), <<f>>),
-                  MsgO("R", FN(P, "R"), <<InOneof(FRef("mid", "mid", 1, "message", "one", FN(P, "Mid")), "choice"), InOneof(F("num", "num", 2, "int32", "one"), "choice"),
-                                         FMap("mids", "mids", 3, "string", "message", FN(P, "Mid"))>>, <<Oneof("choice", FALSE, "", FALSE)>>)>>, FN(P, "R"))
+                  MsgO("R", FN(P, "R"), <<InOneof(FRef("message", "message", 1, "message", "one", FN(P, "Mid")), "body"), InOneof(F("num", "num", 2, "int32", "one"), "body"),
+                                         FMap("mids", "mids", 3, "string", "message", FN(P, "Mid"))>>, <<Oneof("body", FALSE, "", FALSE)>>)>>, FN(P, "R"))
        [] nest = "protonested" ->
             one(<<MsgN("R", FN(P, "R"), <<FRef("inner", "inner", 1, "message", "one", FN(P, "R.Inner")), [F("v", "v", 2, "string", "one") EXCEPT !.ann.examples = <<"outer">>]>>,
                        <<Msg("Inner", FN(P, "R.Inner"), <<f>>)>>),
@@ -679,7 +706,7 @@ C20Case(P, k, c, ex, nest) ==
 (* C18: document-level shapes.                                             *)
 (***************************************************************************)
 C18Shapes == {"same_named_nested", "multi_service", "imported_msgs", "path_and_query", "headers", "same_name_other_location", "date_examples",
-              "multi_service_shared_annotated", "two_files_shared_annotated"}
+              "multi_service_shared_annotated", "two_files_shared_annotated", "nested_decl_unused_with_refs"}
 C18Case(P, sh) ==
   LET do(n, in, out, parts, verb) == Method(n, in, out, TRUE, parts, verb)
   IN CASE sh = "same_named_nested" ->
@@ -721,6 +748,20 @@ C18Case(P, sh) ==
                ELSE Schema(<<File(P \o "/types.proto", Pkg(P), GoPkg(P), TRUE, <<>>, <<>>, <<Child(P), Child2(P), ev, en, fl, li, hold>>, <<>>),
                              File(P \o "/svc.proto", Pkg(P), GoPkg(P), TRUE, <<P \o "/types.proto">>, <<s1>>, <<>>, <<>>),
                              File(P \o "/more.proto", Pkg(P), GoPkg(P), TRUE, <<P \o "/types.proto">>, <<s2, s3>>, <<>>, <<>>)>>)
+       \* a nested declaration that no field of the service's messages uses, whose own fields refer to messages
+       \* (one of them imported) that are reachable in no other way: what the document publishes must be closed
+       [] sh = "nested_decl_unused_with_refs" ->
+            Schema(<<File(P \o "/types.proto", Pkg(P), GoPkg(P), FALSE, <<>>, <<>>, <<Msg("Window", FN(P, "Window"), <<F("from", "from", 1, "int64", "one"), FRef("c", "c", 2, "message", "one", FN(P, "Child2"))>>), Child2(P)>>, <<>>),
+                     File(P \o "/svc.proto", Pkg(P), GoPkg(P), TRUE, <<P \o "/types.proto">>,
+                          <<Svc(P, <<do("Do", FN(P, "In"), FN(P, "Page"), Parts(TRUE, <<Lit("do")>>, FALSE), "POST")>>),
+                            Service("Second", TRUE, Parts(TRUE, <<Lit("second")>>, FALSE),
+                                    <<do("Other", FN(P, "In"), FN(P, "UsesCursor"), Parts(TRUE, <<Lit("o")>>, FALSE), "POST")>>)>>,
+                          <<In(P), Child(P),
+                            MsgN("Page", FN(P, "Page"), <<F("title", "title", 1, "string", "one")>>,
+                                 <<Msg("Cursor", FN(P, "Page") \o ".Cursor", <<FRef("w", "w", 1, "message", "one", FN(P, "Window")),
+                                                                               FMap("by", "by", 2, "string", "message", FN(P, "Child")),
+                                                                               FRef("ws", "ws", 3, "message", "rep", FN(P, "Window"))>>)>>),
+                            Msg("UsesCursor", FN(P, "UsesCursor"), <<FRef("cur", "cur", 1, "message", "one", FN(P, "Page") \o ".Cursor")>>)>>, <<>>)>>)
        [] sh = "imported_msgs" ->
             Schema(<<File(P \o "/types.proto", Pkg(P), GoPkg(P), FALSE, <<>>, <<>>, <<Child(P), Child2(P)>>, <<EnumE>>),
                      File(P \o "/svc.proto", Pkg(P), GoPkg(P), TRUE, <<P \o "/types.proto">>,
